@@ -934,8 +934,10 @@ func genTypedProgram(r *RNG, model *CfgModel, userClasses []*GClass, n int) []*t
 					// three or more classes (a union argument can be a strict subset)
 					var wide []string
 					for _, nm := range names {
-						// (or one that is declared more than once)
-						isWide := len(model.Lookup(cl, nm, false)) > 1
+						// (or one that is declared more than once, or one of Object's
+						// methods that the class or an ancestor redeclares with parameters)
+						ds := model.Lookup(cl, nm, false)
+						isWide := len(ds) > 1 || ((nm == "inspect" || nm == "to_s") && len(ds) == 1 && len(ds[0].Params) > 0)
 						for _, d := range model.Lookup(cl, nm, false) {
 							for _, p := range d.Params {
 								if p.Key == "" && len(p.Type.Atoms) >= 3 && !p.Type.Untyped {
